@@ -118,6 +118,9 @@ pub enum XSel {
     /// the id of honest peer n (1..)
     Peer(u8),
     Random(u8),
+    /// an identity with an Ed25519 key (a node this implementation cannot have sessions with, but
+    /// whose validly signed record may be known to V or be presented by anybody)
+    Ed(u8),
 }
 
 #[derive(Clone, Copy, Debug, PartialEq, Eq, Hash, Serialize, Deserialize)]
@@ -190,7 +193,18 @@ pub enum Op {
     Redirect { d: u16, to: u8 },
     /// undecryptable message claiming `x` from attacker address z
     Probe { x: XSel, z: u8 },
-    ForgedHandshake { x: XSel, z: u8, signer: Signer, eph: EphKey, rec: AttachedRecord, body: ForgedBody },
+    ForgedHandshake {
+        x: XSel,
+        z: u8,
+        signer: Signer,
+        eph: EphKey,
+        rec: AttachedRecord,
+        body: ForgedBody,
+        /// when x is an honest peer: present the handshake from THAT PEER'S address (an on-path
+        /// adversary answering V's WHOAREYOU to the peer) instead of attacker address z
+        #[serde(default)]
+        spoof: bool,
+    },
     ForgedMessage { x: XSel, z: u8, body: ForgedBody },
     /// WHOAREYOU sent to node `to` echoing the nonce of logged datagram d
     ForgedWhoAreYou { d: u16, from: AddrSel, to: u8, random_nonce: bool },
@@ -344,6 +358,31 @@ pub fn attacker_addr(z: u8) -> SocketAddr {
     SocketAddr::new(IpAddr::V4(Ipv4Addr::new(10, 66, 0, 1 + z % N_ATTACKER_ADDRS)), 7000 + (z % N_ATTACKER_ADDRS) as u16)
 }
 
+pub const N_ED_IDS: u8 = 2;
+
+thread_local! {
+    static ED_RECORDS: std::cell::RefCell<Vec<Enr>> = const { std::cell::RefCell::new(Vec::new()) };
+}
+
+/// The (one, cached) validly signed record of Ed25519 identity n; it advertises an address at which
+/// nobody listens.
+pub fn ed_record(n: u8) -> Enr {
+    let n = n % N_ED_IDS;
+    ED_RECORDS.with(|c| {
+        let mut c = c.borrow_mut();
+        if c.is_empty() {
+            for i in 0..N_ED_IDS {
+                let mut seed = [0x11u8 + i; 32];
+                let k = CombinedKey::ed25519_from_bytes(&mut seed).expect("ed25519 key");
+                let mut b = Enr::builder();
+                b.seq(3).ip4(Ipv4Addr::new(10, 88, 0, 1 + i)).udp4(8800 + i as u16);
+                c.push(b.build(&k).expect("ed25519 record"));
+            }
+        }
+        c[n as usize].clone()
+    })
+}
+
 pub fn attacker_key(j: u8) -> CombinedKey {
     keys::key(500 + (j % 3) as u32)
 }
@@ -463,13 +502,14 @@ impl World {
                 b[31] = *r;
                 b
             }
+            XSel::Ed(n) => ed_record(*n).node_id().raw(),
         }
     }
 
     pub fn xnode(&self, x: &XSel) -> Option<usize> {
         match x {
             XSel::Peer(p) => Some(1 + (*p as usize % (self.nodes.len() - 1).max(1))),
-            XSel::Random(_) => None,
+            XSel::Random(_) | XSel::Ed(_) => None,
         }
     }
 
@@ -536,6 +576,9 @@ impl World {
     }
 
     fn know_record(&self, node: usize, about: &NodeId, know: Know) -> Option<Enr> {
+        if let Some(n) = (0..N_ED_IDS).find(|n| ed_record(*n).node_id() == *about) {
+            return if know == Know::Nothing { None } else { Some(ed_record(n)) };
+        }
         let j = self.nodes.iter().position(|n| ids::node_id(&n.id) == *about)?;
         let _ = node;
         match know {
